@@ -9,6 +9,7 @@ import (
 	"errors"
 	"fmt"
 	"io"
+	"io/fs"
 	"log/slog"
 	"regexp"
 	"time"
@@ -209,10 +210,17 @@ func indexIngest(repo Repo, index *types.Index, conf config.Config, locked bool)
 		rmDesc := []types.Descriptor{}
 		for _, desc := range digestTags {
 			curResp, err := repoGetIndex(repo, desc, locked)
+			if storageFailure(err) {
+				// the conversion is repeated on the next load, skipping the tag would lose its referrers for good
+				return mod, fmt.Errorf("failed to read fallback tag %s: %w", desc.Digest.String(), err)
+			}
 			if err != nil || curResp.Manifests == nil {
 				continue
 			}
-			valid, refSubj, refResp := indexValidReferrer(repo, curResp, locked)
+			valid, refSubj, refResp, err := indexValidReferrer(repo, curResp, locked)
+			if err != nil {
+				return mod, fmt.Errorf("failed to read referrers of fallback tag %s: %w", desc.Digest.String(), err)
+			}
 			// check for a different response already in the index
 			if valid {
 				if resp, ok := referrerResponse[refSubj.String()]; ok && resp.Digest != desc.Digest {
@@ -243,6 +251,9 @@ func indexIngest(repo Repo, index *types.Index, conf config.Config, locked bool)
 		for subj, respList := range addResp {
 			if refDesc, ok := referrerResponse[subj]; ok {
 				resp, err := repoGetIndex(repo, refDesc, locked)
+				if storageFailure(err) {
+					return mod, fmt.Errorf("failed to read referrers response %s: %w", refDesc.Digest.String(), err)
+				}
 				if err == nil && resp.Manifests != nil {
 					respList = append(respList, resp.Manifests...)
 				}
@@ -298,6 +309,9 @@ func indexIngest(repo Repo, index *types.Index, conf config.Config, locked bool)
 	// load child descriptors
 	for len(scanChildren) > 0 {
 		childIndex, err := repoGetIndex(repo, scanChildren[0], locked)
+		if storageFailure(err) {
+			return mod, fmt.Errorf("failed to read index %s: %w", scanChildren[0].Digest.String(), err)
+		}
 		if err != nil {
 			scanChildren = scanChildren[1:]
 			continue
@@ -324,12 +338,15 @@ func indexIngest(repo Repo, index *types.Index, conf config.Config, locked bool)
 // The return is true for valid responses, the digest is for the subject if valid.
 // The returned map is of subjects with a list of descriptors to include in the referrers response to that subject.
 // Errors getting manifests are ignored and those descriptors referencing those manifests are discarded.
-func indexValidReferrer(repo Repo, index types.Index, locked bool) (bool, digest.Digest, map[digest.Digest][]types.Descriptor) {
+func indexValidReferrer(repo Repo, index types.Index, locked bool) (bool, digest.Digest, map[digest.Digest][]types.Descriptor, error) {
 	var subject digest.Digest
 	valid := true
 	responses := map[digest.Digest][]types.Descriptor{}
 	for _, desc := range index.Manifests {
 		rdr, err := repo.blobGet(desc.Digest, locked)
+		if storageFailure(err) {
+			return false, "", nil, err
+		}
 		if err != nil {
 			// errors result in entry being dropped from response list
 			valid = false
@@ -337,6 +354,9 @@ func indexValidReferrer(repo Repo, index types.Index, locked bool) (bool, digest
 		}
 		raw, err := io.ReadAll(rdr)
 		_ = rdr.Close()
+		if storageFailure(err) {
+			return false, "", nil, err
+		}
 		if err != nil {
 			valid = false
 			continue
@@ -370,7 +390,7 @@ func indexValidReferrer(repo Repo, index types.Index, locked bool) (bool, digest
 	if !valid {
 		subject = ""
 	}
-	return valid, subject, responses
+	return valid, subject, responses, nil
 }
 
 func layoutVerify(b []byte) bool {
@@ -563,6 +583,13 @@ func repoGarbageCollect(repo Repo, conf config.Config, index types.Index, locked
 		}
 	}
 	return index, mod, nil
+}
+
+// storageFailure reports whether err comes from the storage below the repository (EIO, EMFILE, ...),
+// as opposed to content that is missing or is not what was expected.
+func storageFailure(err error) bool {
+	var pe *fs.PathError
+	return err != nil && errors.As(err, &pe) && !errors.Is(err, fs.ErrNotExist)
 }
 
 func repoGetIndex(repo Repo, d types.Descriptor, locked bool) (types.Index, error) {
